@@ -170,12 +170,17 @@ def run_verus_unit(unit, rlimit=200, probe=False, repo=None, extra=None):
 
 
 def verus_with_retry(unit, rlimit, repo=None):
+    """A proof found on any attempt is a proof; a failure is only reported after a second attempt with a
+    different solver seed and a larger resource limit (SMT instability must not become a false alarm)."""
     r = run_verus_unit(unit, rlimit, False, repo)
-    if r["status"] == "undecided" and r.get("reason") == "rlimit exceeded":
-        r2 = run_verus_unit(unit, rlimit * 4, False, repo)
-        r2["retried"] = True
-        return r2
-    return r
+    if r["status"] == "ok":
+        return r
+    if r["status"] == "undecided" and r.get("reason") != "rlimit exceeded":
+        return r
+    r2 = run_verus_unit(unit, rlimit * 4, False, repo, extra=["--smt-option", "smt.random_seed=17"])
+    r2["retried"] = True
+    r2["first_attempt"] = {"status": r["status"], "errors": [e["msg"] + " | " + e["clause"] for e in r.get("errors", [])][:5]}
+    return r2
 
 
 # ------------------------------------------------------------------------------------------------
